@@ -236,7 +236,12 @@ func (sim) Generate(prop, tier string, seed uint64) *core.Plan {
 			}
 		case "chpass":
 			m, kk := mode()
-			a = []int64{int64(r.Intn(2)), int64(r.Intn(4)), m, kk, int64(r.Intn(3))}
+			a = []int64{int64(r.Intn(2)), int64(r.Intn(4)), m, kk, int64(r.Intn(3)), 0}
+			if prop == "C05" && r.Intn(4) == 0 {
+				// another caller's Unlock / Lock lands between
+				// ChangePassphrase returning and its transaction committing
+				a[5] = int64(1 + r.Intn(2))
+			}
 			if prop == "C08" {
 				// Passphrases are not among the things property C08 compares
 				// across a restart; a rolled-back change belongs to C10.
